@@ -64,11 +64,16 @@ PARTIAL = ["build_strict_layout_partial: proved on the judge's layout domain wfL
            "C01's layouts never break next to a blank) — any other wrapping of the line is covered; (6) [gone: C01's RRef carries the reference's own number since 1a12106; any blank-free Index, gaps, repeats, unset] "
            "(7) the two known findings (blank run at a wrap point, "
            "no locus name).",
-           "parse_build_partial compares the location TEXT of each feature (Genbank.parse leaves parseLocation to C02). That the STRUCTURE "
-           "parseLocation derives from that text equals the record's SequenceLocation (modulo normLoc) rests on (a) wfSeq's conjunct cacheConsistent for "
-           "cached texts and (b) property C02's theorem parsed_structure (Props/C02.lean: parseLocation (print l) = ok (pembed l)) together with "
-           "build_parsed_is_insdc_lenient for structural ones; in this check it is judged on every case: the real SequenceLocation of "
-           "Parse(Build(x)) is compared with x's by locBeq ∘ normLoc",
+           "parse_build_partial states the exact result (toSequence (toRec x)); an UNSET Reference.Index comes back as its position because that is what "
+           "Build writes for it (be39eee: {Index:\"\"} at position 1 and {Index:\"1\"} give the same bytes) — `approx` and the judge compare with "
+           "withDefaultIndex x and say so",
+           "location STRUCTURE: for a feature written from its cached text, approx includes `parseLocation (text read back) ≈ SequenceLocation` "
+           "(modulo normLoc; from wfSeq's cacheConsistent). For a STRUCTURALLY assembled feature only the text BuildLocationString prints is in the "
+           "theorem: `wfLoc p → parseLocation (buildLoc p) ≈ p` is NOT proved — C02's parsed_structure is about `print l` (INSDC `a..>b`, base `n`), "
+           "not about the `a..b>` / `n..n` text Build writes (buildLoc_rep: buildLoc p = tprint true (norm l)); the lemma is requested from C02, and "
+           "coordinates outside C02's Loc (negative start, {0,0}, stop < start) cannot go through it. Judged on every case: the real "
+           "SequenceLocation of Parse(Build(x)) is compared with x's by locBeq ∘ normLoc (a brute force over 1032 wfLoc structures by the round-3 "
+           "reviewer found no counterexample)",
            "known findings (judge FAILS, tagged): C03-blank-run-at-wrap, C03-nameless-locus (exactly Locus.Name == \"\")"]
 PROOF_MODULES = ["PolyVerif.Props.C03", "PolyVerif.Props.C03Parse"]
 
